@@ -95,6 +95,12 @@ class DesignConditions(Contract):
         cx.oblige("post.probe_line.shape", okl, "post")
         if okl:
             cx.oblige("post.probe_line.vertical_at_abscissa", T.land(T.eq(term_of(xl[0]), x2), T.eq(term_of(xl[1]), x2)), "post", "vertical line through the requested abscissa")
+            if ok:
+                ymin = term_of(itp.lib.table["numpy.min"].fn(itp, [y1], {}))
+                ymax = term_of(itp.lib.table["numpy.max"].fn(itp, [y1], {}))
+                cx.assume(T.ge(ymax, 0), "requires: the largest ordinate of the contour is non-negative (metocean variables)")
+                cx.oblige("post.probe_line.spans_polygon", T.land(T.le(term_of(yl[0]), ymin), T.ge(term_of(yl[1]), ymax)), "post",
+                          "the probe line spans the whole ordinate range of the (possibly axis-swapped) polygon, so no intersection is missed")
         # what was appended
         fx, fy = env.lookup("frontier_x"), env.lookup("frontier_y")
         L0x, L0y = itp.scratch["len0_frontier_x"], itp.scratch["len0_frontier_y"]
